@@ -9,6 +9,10 @@ import lentil.helper as lhelper
 from vlib import gen
 from vlib.runner import Skip, Violation, enum, expect_raises, hyp, known_predicate, known_probe, lentil_call
 
+# the check's own calls are issued with keywords or positionally in the documented order (vlib/callforms.py)
+from vlib import callforms as _cf
+lentil = _cf.proxy(lentil)
+
 RULE = ("pad/crop and subarray: complete (n -> N) tables on small sizes; masks, rebin factors, shape "
         "parameters and hex_segments configurations drawn by Hypothesis; non-trivial = parity of source and "
         "target differ on some axis / shape is off-centre / mask is not centred")
